@@ -50,6 +50,11 @@ CHECKS = {
     technique="TLA+ observation specification (PipelineObs) evaluated by TLC over recorded traces of the real runtime executed under a deterministic scheduler (seeded random/PCT/starvation schedules, abort/fault sweeps, hang oracle)",
     text='Frame averaging emits the exact mean of each window: k in {2,3}, all integer types, rings of ~1.2-5 accumulators pre-filled with non-zero bytes, random schedules; PipelineObs: f32 frames, id = first frame of the window, windows consecutive, complete windows only after their inputs, mean within 1 ulp of sum/k recomputed from the camera payload, at least floor(N/k) frames at stop and at most one extra.',
     note="Trusted: TLC as the judge of PipelineObs; the deterministic scheduler's model of platform.h primitives; the mock driver (deterministic payloads, scripted pacing/faults); sequentially consistent flag accesses; client contract: a monitoring client keeps polling until the acquisition ends before it calls stop (a lagging registered monitor that calls stop on a full ring cannot be drained by anyone), and does not call start while another client call is in flight."),
+ "C18": dict(
+    category="model_checking", design_ref="DESIGN.md section 6 (C18), section 15",
+    technique="TLA+/PlusCal model of the camera's streamer/controller/caller threads checked by TLC (safety + liveness under fairness) and TLC trace validation (SimCamStreamObs) of the real simulated.camera.c executed under a deterministic scheduler",
+    text="SimCamStream models simulated.camera.c's streamer, trigger, start/stop and get_frame at scheduling-point granularity (lock, both condition variables, unlocked flag reads where the code has them); TLC checks ids strictly increasing, trigger gating, no stale frame and, under fairness, that stop returns and releases a pending frame call. The real camera code runs under the deterministic scheduler (random/PCT/starvation schedules, spurious wake-ups, trigger toggled while live, up to 3 restarts) with a hang oracle; every call trace, ordered by linearization points taken under the camera lock, is judged by SimCamStreamObs in TLC.",
+    note="Trusted: TLC; the deterministic scheduler's model of lock/cv/thread primitives; sequentially consistent unlocked flag accesses; client contract: start is not issued while a frame call of the previous run is in flight; trigger gating is judged only for runs during which the trigger setting stayed enabled (a disabling set fires the trigger by design)."),
 }
 
 def main():
